@@ -815,6 +815,54 @@ theorem retrItem_congr (eps : ℝ) (g : Grp) (X d d' : Nat → ℝ) (h : ∀ a, 
     have h3 := h 3 (by decide); have h4 := h 4 (by decide); have h5 := h 5 (by decide); have h6 := h 6 (by decide)
     simp only [retrItem, Nat.zero_add, h0, h1, h2, h3, h4, h5, h6]
 
+/-- `Exp(d[:m]) · X` of one item reads only that item's `gdim` storage entries and the first `adim` step entries -/
+theorem retrItem_congr2 (eps : ℝ) (g : Grp) (X X' d d' : Nat → ℝ) (hX : ∀ a, a < g.gdim → X a = X' a)
+    (h : ∀ a, a < g.adim → d a = d' a) : retrItem eps g X d = retrItem eps g X' d' := by
+  rw [retrItem_congr eps g X d d' h]
+  cases g
+  · have h0 := hX 0 (by decide); have h1 := hX 1 (by decide); have h2 := hX 2 (by decide); have h3 := hX 3 (by decide)
+    simp only [retrItem, Nat.zero_add, h0, h1, h2, h3]
+  · have h0 := hX 0 (by decide); have h1 := hX 1 (by decide); have h2 := hX 2 (by decide); have h3 := hX 3 (by decide)
+    have h4 := hX 4 (by decide); have h5 := hX 5 (by decide); have h6 := hX 6 (by decide)
+    simp only [retrItem, Nat.zero_add, h0, h1, h2, h3, h4, h5, h6]
+  · have h0 := hX 0 (by decide); have h1 := hX 1 (by decide); have h2 := hX 2 (by decide); have h3 := hX 3 (by decide)
+    have h4 := hX 4 (by decide)
+    simp only [retrItem, Nat.zero_add, h0, h1, h2, h3, h4]
+  · have h0 := hX 0 (by decide); have h1 := hX 1 (by decide); have h2 := hX 2 (by decide); have h3 := hX 3 (by decide)
+    have h4 := hX 4 (by decide); have h5 := hX 5 (by decide); have h6 := hX 6 (by decide); have h7 := hX 7 (by decide)
+    simp only [retrItem, Nat.zero_add, h0, h1, h2, h3, h4, h5, h6, h7]
+
+/-! ## separable (item-wise independent) batches -/
+
+/-- every term of `(JᵀWJ)[i, j]` vanishes when rows / columns belong to different items -/
+theorem normal_separable (m : Nat) (W J : Nat → Nat → ℝ) (ritem citem : Nat → Nat)
+    (hJ : ∀ r c, ritem r ≠ citem c → J r c = 0) (hW : ∀ r s, ritem r ≠ ritem s → W r s = 0)
+    (i j : Nat) (hij : citem i ≠ citem j) : lmNormal m (lmJT m (some W) J) J i j = 0 := by
+  simp only [lmNormal, lmJT, sumN_eq]
+  apply sum_eq_zero
+  intro s _
+  by_cases hs : ritem s = citem j
+  · have : ∑ r ∈ range m, J r i * W r s = 0 := by
+      apply sum_eq_zero
+      intro r _
+      by_cases hr : ritem r = citem i
+      · have : ritem r ≠ ritem s := by rw [hr, hs]; exact hij
+        rw [hW r s this, mul_zero]
+      · rw [hJ r i hr, zero_mul]
+    rw [this, zero_mul]
+  · rw [hJ s j hs, mul_zero]
+
+theorem normal_separable_unweighted (m : Nat) (J : Nat → Nat → ℝ) (ritem citem : Nat → Nat)
+    (hJ : ∀ r c, ritem r ≠ citem c → J r c = 0) (i j : Nat) (hij : citem i ≠ citem j) :
+    lmNormal m (lmJT m none J) J i j = 0 := by
+  simp only [lmNormal, lmJT, sumN_eq]
+  apply sum_eq_zero
+  intro s _
+  by_cases hs : ritem s = citem j
+  · have : ritem s ≠ citem i := by rw [hs]; exact fun e => hij e.symm
+    rw [hJ s i this, zero_mul]
+  · rw [hJ s j hs, mul_zero]
+
 /-! ## the damped weighted least-squares objective -/
 
 section damped
